@@ -136,6 +136,25 @@ func parse(id string) *x509.Certificate {
 	return cs[parsedNext[id]]
 }
 
+// Children (arguments of the parent lookup) are ONE object per id, reused by every lookup: the lookup
+// writes to its argument (ValidSignature), so what an earlier lookup left behind is part of the next
+// one's input.  resetChildren starts a new self-contained history.
+var children = map[string]*x509.Certificate{}
+
+func parseChild(id string) *x509.Certificate {
+	if c, ok := children[id]; ok {
+		return c
+	}
+	c, err := x509.ParseCertificate(ders[id])
+	if err != nil {
+		obs.Fatal("parse %s: %v", id, err)
+	}
+	children[id] = c
+	return c
+}
+
+func resetChildren() { children = map[string]*x509.Certificate{} }
+
 func idOf(c *x509.Certificate) string {
 	if c == nil {
 		return "?nil"
@@ -290,13 +309,14 @@ func runStep(hist []Op, st Step) (observer string, slot int, got []SlotExp, ok b
 const watchdogLimit = 60e9
 
 type ParentObs struct {
-	Pool  []string `json:"pool"`
-	Child string   `json:"child"`
-	Idxs  []int    `json:"idxs"`
+	Pool  []string   `json:"pool"`
+	Child string     `json:"child"`
+	Idxs  []int      `json:"idxs"`
+	Prior [][]string `json:"prior"` // pools this child object was looked up in before, in order (replay context)
 }
 
 func parentsOf(p *x509.CertPool, child string) []int {
-	idxs, _, _ := p.VerifPkvFindVerifiedParents(parse(child))
+	idxs, _, _ := p.VerifPkvFindVerifiedParents(parseChild(child))
 	if idxs == nil {
 		idxs = []int{}
 	}
@@ -313,6 +333,7 @@ func main() {
 		loadUniverse(os.Args[2])
 		pw := obs.NewWriter(os.Args[4])
 		seenParents := map[string]bool{}
+		prior := map[string][][]string{}
 		seen := map[string]bool{}
 		states, steps, bad := 0, 0, 0
 		err := obs.ReadLines(os.Args[3], func(line []byte) error {
@@ -364,7 +385,12 @@ func main() {
 						}
 						seenParents[k] = true
 						po.Idxs = parentsOf(ps[s], ch)
+						po.Prior = prior[ch]
+						if po.Prior == nil {
+							po.Prior = [][]string{}
+						}
 						pw.Write(po)
+						prior[ch] = append(prior[ch][:len(prior[ch]):len(prior[ch])], ids)
 					}
 				}
 			}
@@ -485,6 +511,7 @@ func record(path string, traces, ln int) {
 	kinds := []string{"c", "c", "c", "t", "b", "g"}
 	for t := 0; t < traces; t++ {
 		ps := fresh()
+		resetChildren() // every recorded trace is a self-contained history
 		w.Write(Event{"ev": "reset"})
 		// a trace works on a random sub-universe so that pools fill up and duplicates are frequent
 		nu := 2 + rng.Intn(len(poolIDs)-1)
@@ -549,6 +576,9 @@ func rerecord(w *obs.Writer, events []Event) {
 		switch e["ev"] {
 		case "reset":
 			ps = fresh()
+			if e["newchildren"] == true {
+				resetChildren()
+			}
 			w.Write(Event{"ev": "reset"})
 		case "add":
 			doEvent(w, ps, "add", num(e, "p"), 0, 0, e["c"].(string), nil)
